@@ -5,7 +5,7 @@
 // operation touches a dead value, construct/destroy paired).  K-step sequences
 // cross-check.  Comparison operators: all 18, symbolic emptiness and values.
 // Status<T>::GetErrorMessage: every ErrorStatus.
-//@tu unwind=80
+//@tu inline=1 unwind=80
 #include "vrt.h"
 #include <new>
 #include <utility>
